@@ -66,7 +66,7 @@ def run(prop, tier, seed, plan, feature=None, module="MC_Gen", release_too=None,
     return rep
 
 
-def run_scenarios(rep, name, progs, binaries, prop, max_steps=400):
+def run_scenarios(rep, name, progs, binaries, prop, max_steps=400, trace=True):
     """progs: [(id, tokens)] built in Python; the reference machine (MC_MachineFile) supplies the expectation."""
     import mrun
     model, res = mrun.model_run(progs, tag=prop.lower() + name)
@@ -87,6 +87,21 @@ def run_scenarios(rep, name, progs, binaries, prop, max_steps=400):
     if True:
         pass
     n, u = profiles.replay(rep, runs, binaries, "scenario (%s)" % name, prop)
+    if trace:
+        # implementation -> specification: the control events of every program whose ideal run uses no construct of a
+        # recorded finding must be a behaviour of TraceVm.tla (handler discipline, fiber switches, both fiber
+        # representations, frame bound, run boundaries) - on every build
+        import tracevm
+        clean = [r for r in runs if r["done"] and not r["oom"] and not r["trig"]]
+        nt = ne = 0
+        for bname, binary in binaries:
+            a, e = tracevm.validate(rep, binary, bname, [mrun.case_of(r["id"] if "id" in r else i, r["prog"]) for i, r in enumerate(clean)],
+                                    "scenario family %s" % name, tag="tv" + prop.lower() + name[:6])
+            nt += a
+            ne += e
+        rep.coverage["traces_validated_by_TraceVm"] = rep.coverage.get("traces_validated_by_TraceVm", 0) + nt
+        rep.coverage["events_validated_by_TraceVm"] = rep.coverage.get("events_validated_by_TraceVm", 0) + ne
+        n += nt
     rep.coverage["states"] = rep.coverage.get("states", 0) + res.distinct
     rep.coverage["transitions"] = rep.coverage.get("transitions", 0) + res.generated
     rep.coverage["traces_validated_against_impl"] = rep.coverage.get("traces_validated_against_impl", 0) + n
